@@ -24,7 +24,8 @@ from vlib import log
 from eng_rbc import tla_val
 
 MON = {
-    "C01": ["KeyAgreement", "AllSubsetsVerify", "HonestRunCompletes", "NoCrash", "NoPanicInUse", "EveryParticipantGotValidSig", "NoMessageBeforeRegistered", "InitBeforeFirstMessage"],
+    "C01": ["KeyAgreement", "AllSubsetsVerify", "HonestRunCompletes", "NoCrash", "NoPanicInUse", "EveryParticipantGotValidSig", "NoMessageBeforeRegistered", "InitBeforeFirstMessage",
+            "FirstSendAfterAllInit", "HandOverAfterOwnSend"],
     "C05": ["KeyAgreement", "AllSubsetsVerify", "RevealOnlyAfterAllCommits", "CommitmentBinding", "EveryCallReturns", "NoCrash", "NoPanicInUse"],
     "C11": ["EveryCallReturns", "NoCrash"],
 }
@@ -69,19 +70,70 @@ def tlc_dkg(wd, tr, pid):
     return st, trn, ev
 
 
+def tlc_barrier(wd, tr):
+    """spec/Barrier.tla: the start-up barrier across nodes (late callers, no retransmission of protocol messages). The code's design
+    must satisfy NoLoss / NoEarly / FirstSendAfterAllInit / HandOverAfterOwnSend and complete under fairness; every what-if variant
+    must be refuted in the mode it concerns (otherwise the invariants would be vacuous). Also prints the late-caller case list."""
+    ev = []
+    st = trn = 0
+    nodes = "{1, 2, 3}" if tr == "quick" else "{1, 2, 3, 4}"
+    expect = {("loud", "asis"): None, ("silent", "asis"): None, ("loud", "no-sync2"): "FirstSendAfterAllInit", ("loud", "reg-after-sync2"): "NoLoss",
+              ("loud", "init-after-sync2"): "FirstSendAfterAllInit", ("silent", "no-box"): "NoLoss"}
+    for (mode, variant), want in expect.items():
+        name = "B_%s_%s" % (mode, variant.replace("-", "_"))
+        with open(os.path.join(wd, name + ".cfg"), "w") as f:
+            f.write('CONSTANTS Nodes = %s Mode = "%s" Variant = "%s"\nSPECIFICATION FairSpec\n'
+                    'INVARIANTS NoLoss NoEarly FirstSendAfterAllInit HandOverAfterOwnSend\nPROPERTY AllDone\n' % (nodes, mode, variant))
+        r = vlib.run_tlc("Barrier", name + ".cfg", ["Barrier.tla"], workdir=wd, workers=4, timeout=900, heap="4g")
+        if want is None and r.violation:
+            raise vlib.CheckError("Barrier model (%s) violates %s at design level\n%s" % (mode, r.violation, "".join(r.error_trace[-2:])[:2000]))
+        if want is not None and r.violation != want:
+            raise vlib.CheckError("Barrier what-if variant %s (%s) should be refuted by %s but TLC reports %r: the barrier invariants are vacuous" % (
+                variant, mode, want, r.violation))
+        st += r.distinct
+        trn += r.generated
+        ev.append(dict(config="barrier %s %s" % (mode, variant), nodes=nodes, distinct_states=r.distinct, states_generated=r.generated,
+                       refuted_by=want, liveness="AllDone under weak fairness" if want is None else None))
+    log("barrier: design holds in loud and silent mode; 4 what-if variants refuted (%d states)" % st)
+    # late-caller case list: every non-empty proper subset of the members calls KeyGen late
+    with open(os.path.join(wd, "MC_late.tla"), "w") as f:
+        f.write("""---- MODULE MC_late ----
+EXTENDS Integers, FiniteSets, TLC, Json
+VARIABLE done
+Init == done = FALSE
+Next == /\\ ~done /\\ done' = TRUE
+        /\\ \\A n \\in %s : \\A L \\in (SUBSET (1..n)) \\ {{}, 1..n} : PrintT(<<"CASE", ToJson([n |-> n, late |-> L])>>)
+====
+""" % ("{3}" if tr == "quick" else "{2, 3, 4}"))
+    with open(os.path.join(wd, "MC_late.cfg"), "w") as f:
+        f.write("INIT Init\nNEXT Next\n")
+    r = vlib.run_tlc("MC_late", "MC_late.cfg", [], workdir=wd, workers=1, timeout=300, keep_prints=["CASE"])
+    late = [dict(n=o["n"], late=sorted(o["late"])) for (_, o) in r.prints]
+    return st, trn, ev, late
+
+
 NOFAULT = dict(silent_peer=0, after=0, withhold_idx=-1)
 
 
-def case(scheme, mode, n, t, seed, policy="random", ids=None, deadline=6000, fault=None, byz=None, sign=True, cancel=0, msglen=2, slow=None):
-    return dict(scheme=scheme, mode=mode, n=n, t=t, ids=ids or list(range(1, n + 1)), seed=seed, policy=policy, deadline_ms=deadline,
+def case(scheme, mode, n, t, seed, policy="random", ids=None, deadline=6000, fault=None, byz=None, sign=True, cancel=0, msglen=2, slow=None, late=None, late_ms=0):
+    return dict(late=late or [], late_ms=late_ms, scheme=scheme, mode=mode, n=n, t=t, ids=ids or list(range(1, n + 1)), seed=seed, policy=policy, deadline_ms=deadline,
                 fault=fault or NOFAULT, byz=byz, sign=sign and scheme in ("bls", "ps"), cancel_ms=cancel, msglen=msglen, cfg=0,
                 slow_init=(slow or (0, 0))[0], slow_ms=(slow or (0, 0))[1])
 
 
-def cases_for(pid, tr, rng, drv, wd):
+def cases_for(pid, tr, rng, drv, wd, late=()):
     cs = []
     big = tr == "thorough"
     if pid == "C01":
+        # the start-up barrier (spec/Barrier.tla): every non-empty proper subset of the members calls KeyGen late, after the others
+        # have gone as far as they can without them
+        for lc in late:
+            n = lc["n"]
+            for scheme in ("bls", "ps"):
+                for mode in ("loud", "silent"):
+                    for ms in ((35,) if not big else (10, 60)):
+                        cs.append(case(scheme, mode, n, max(2, n - 1), rng.randrange(1 << 30), late=lc["late"], late_ms=ms,
+                                       policy=["random", "newest", "oldest"][len(cs) % 3]))
         nts = [(2, 2), (3, 2), (3, 3), (4, 3)] if not big else [(n, t) for n in range(2, 6) for t in range(2, n + 1)] + [(6, 4)]
         for (n, t) in nts:
             for scheme in ("bls", "ps"):
@@ -177,8 +229,12 @@ def run(pid):
     rng = random.Random(vlib.seed())
     verdict = vlib.Verdict(pid)
     st, trn, ev = tlc_dkg(wd, tr, pid)
+    late = []
+    if pid == "C01":
+        st2, trn2, ev2, late = tlc_barrier(wd, tr)
+        st, trn, ev = st + st2, trn + trn2, ev + ev2
     drv = vlib.build_harness()
-    cs = cases_for(pid, tr, rng, drv, wd)
+    cs = cases_for(pid, tr, rng, drv, wd, late)
     log("stack %s: %d real runs" % (pid, len(cs)))
     stats = execute(pid, cs, wd, verdict, drv)
     for k, v in stats["drift_kinds"].items():
